@@ -13,4 +13,4 @@ if ! cmp -s _CoqProject.new _CoqProject 2>/dev/null || [ ! -f Makefile.coq ]; th
 else
   rm -f _CoqProject.new
 fi
-exec make -f Makefile.coq -j16 "$@"
+exec make -k -f Makefile.coq -j16 "$@"
